@@ -19,6 +19,7 @@ from ..pyfront import dotted, call_name, kwarg, params, src, walk_no_nested, con
 from .. import formats as F
 
 EXPLANATION = (
+    'seek() is interpreted path by path (position as a linear form over initial position, offset, length; locals hold linear forms or None; whence in {0,1,2,other} x offset <0 / =0 / >0; private helpers interpreted in place; counted read loops summarised) and the final position compared with offset / position+offset / length+offset, clamps and out-of-range refusals recognised, in all 10 implementations.  Further: '
     "Per-operation cursor invariants decided on the source of every seekable file class: the seek() branch table is "
     "evaluated symbolically (linear forms over offset / position / length) and compared across the 10 sibling "
     "implementations; for array-backed readers the new position is evaluated as a min/+ expression and proved <= length "
